@@ -22,6 +22,10 @@ extern char *argv0;
 
 void warn(const char *, ...);
 void fatal(const char *fmt, ...);
+#ifdef CPROC_VERIF
+/* verification hook: append one ndjson event line to the file named by $CPROC_VERIF_TRACE (no-op if unset) */
+void vtrace(const char *fmt, ...);
+#endif
 
 void *reallocarray(void *, size_t, size_t);
 void *xreallocarray(void *, size_t, size_t);
